@@ -396,6 +396,8 @@ namespace hv
         std::vector<std::string> texts;
         unsigned long long seed = 1;
         int solo = 1;
+        bool use_tape = false, emit_tape = false;
+        std::vector<long long> tape;
         {
             std::istringstream in(all.text);
             std::string line;
@@ -403,6 +405,15 @@ namespace hv
             {
                 if (line.rfind("===", 0) == 0) { texts.emplace_back(); continue; }
                 if (line.rfind("simseed ", 0) == 0) { seed = std::stoull(line.substr(8)); continue; }
+                if (line.rfind("simtape", 0) == 0)
+                {   // simtape <comma list>: replay these scheduler decisions instead of drawing them from simseed
+                    use_tape = true;
+                    std::istringstream ts(line.size() > 8 ? line.substr(8) : std::string());
+                    std::string tok;
+                    while (std::getline(ts, tok, ',')) if (!tok.empty()) tape.push_back(std::stoll(tok));
+                    continue;
+                }
+                if (line.rfind("emit_simtape", 0) == 0) { emit_tape = true; continue; }
                 if (line.rfind("solo ", 0) == 0) { solo = std::stoi(line.substr(5)); continue; }
                 if (!texts.empty()) { texts.back() += line; texts.back() += "\n"; }
             }
@@ -427,7 +438,10 @@ namespace hv
         }
         Line("phase").str("p", "concurrent").emit();
         sim::Config cfg;
-        cfg.seed = seed;
+        cfg.seed        = seed;
+        cfg.use_tape    = use_tape;
+        cfg.tape        = tape;
+        cfg.record_tape = emit_tape;
         sim::configure(cfg);
         sim::set_log(false);
         for (auto &j : jobs)
@@ -438,6 +452,12 @@ namespace hv
         }
         sim::run_all();
         g_ctx = &g_default_ctx;
+        if (emit_tape || use_tape)
+        {
+            std::string tp;
+            for (long long x : sim::tape_record()) { if (!tp.empty()) tp += ","; tp += std::to_string(x); }
+            Line("tape").i("n", static_cast<long long>(sim::tape_record().size())).str("v", tp).emit();
+        }
         Line("end").str("run", "done").i("steps", sim::stats().steps).i("preemptions", sim::stats().preemptions).i("mutex_blocks", sim::stats().mutex_blocks)
             .str("trace_hash", std::to_string(sim::trace_hash())).emit();
         return 0;
